@@ -22,6 +22,7 @@ import (
 	"fmt"
 	"io/ioutil"
 	"math/big"
+	"math/rand"
 	"os"
 	"path/filepath"
 	"regexp"
@@ -257,13 +258,21 @@ func genCase(c int64) caseFile {
 				if len(contracts) == 0 || rng.Float64() < 0.3 {
 					rts := [][]byte{evmdrive.CounterRuntime, evmdrive.LoggerRuntime, evmdrive.StoreRuntime, evmdrive.SuicideRuntime, evmdrive.RevertRuntime}
 					code := evmdrive.Deploy(rts[rng.Intn(len(rts))])
+					if rng.Float64() < 0.35 {
+						// a contract that does nothing but call: k calls of one kind (CALL / CALLCODE /
+						// DELEGATECALL / STATICCALL) with a chosen value, gas operand and target
+						code = evmdrive.Deploy(callStorm(rng, contracts))
+						kind = "create-callstorm"
+					}
 					if rng.Float64() < 0.15 { // init code that is garbage
 						code = make([]byte, 1+rng.Intn(40))
 						rng.Read(code)
 					}
 					tx = evmdrive.SignedTx(k, nonce[l], nil, 0, 3000000, 0, code)
 					contracts = append(contracts, evmdrive.ContractAddr(evmdrive.Addr(k), nonce[l]))
-					kind = "create"
+					if kind != "create-callstorm" {
+						kind = "create"
+					}
 				} else {
 					to := contracts[rng.Intn(len(contracts))]
 					data := make([]byte, []int{0, 32, 64}[rng.Intn(3)])
@@ -656,6 +665,43 @@ func tailStr(s string, n int) string {
 		return s[len(s)-n:]
 	}
 	return s
+}
+
+// callStorm builds a runtime of k consecutive calls: operands retSize retOff inSize inOff [value]
+// target gas, each result popped.
+func callStorm(rng *rand.Rand, contracts []common.Address) []byte {
+	k := []int{1, 3, 9, 10, 11, 12, 25, 40, 120}[rng.Intn(9)]
+	op := []byte{0xf1, 0xf1, 0xf1, 0xf2, 0xf4, 0xfa}[rng.Intn(6)]
+	var target []byte
+	switch rng.Intn(5) {
+	case 0:
+		target = []byte{0x61, 0x12, 0x34} // an account without code
+	case 1:
+		target = []byte{0x60, byte(1 + rng.Intn(8))} // a precompile
+	case 2:
+		target = []byte{0x30} // ADDRESS: itself
+	case 3:
+		if len(contracts) > 0 {
+			target = append([]byte{0x73}, contracts[rng.Intn(len(contracts))].Bytes()...)
+		} else {
+			target = []byte{0x60, 0xfe}
+		}
+	default:
+		target = []byte{0x33} // CALLER
+	}
+	value := [][]byte{{0x60, 0x00}, {0x60, 0x01}, {0x60, 0x01}, {0x7f, 0x80, 0, 0, 0, 0, 0, 0, 0, 0, 0, 0, 0, 0, 0, 0, 0, 0, 0, 0, 0, 0, 0, 0, 0, 0, 0, 0, 0, 0, 0, 0, 0}}[rng.Intn(4)]
+	gas := [][]byte{{0x60, 0x00}, {0x5a}, {0x61, 0xff, 0xff}, {0x63, 0x7f, 0xff, 0xff, 0xff}}[rng.Intn(4)]
+	var rt []byte
+	for i := 0; i < k; i++ {
+		rt = append(rt, 0x60, 0x00, 0x60, 0x00, 0x60, 0x00, 0x60, 0x00)
+		if op == 0xf1 || op == 0xf2 {
+			rt = append(rt, value...)
+		}
+		rt = append(rt, target...)
+		rt = append(rt, gas...)
+		rt = append(rt, op, 0x50)
+	}
+	return append(rt, 0x00)
 }
 
 func main() {
